@@ -166,9 +166,6 @@ theorem fdiv_jump_nonneg (x interval : Int) (hx : 0 ≤ x) (hi : 1 ≤ interval)
   rw [Py.fdiv_pos x (by omega)]
   exact Int.mul_nonneg (Int.ediv_nonneg hx (by omega)) (by omega)
 
-theorem curOrd_day (c : Cursor) (d : Int) : curOrd { c with day := d } = curOrd c + (d - c.day) := by
-  unfold curOrd toOrdinal; dsimp only; omega
-
 /-- **HOURLY**: the next period starts at least one hour later -/
 theorem hourly_next (r : Rule) (ok : RuleOk r) (f4 : r.freq = 4) (st st' : State) (inv : SubInv r st)
     (c : Option Int) (fl : Bool) (h : advance r { st with count := c } fl = .ok st') :
